@@ -285,3 +285,11 @@ func TestC12(t *testing.T) {
 		rec.Sample(func() any { return map[string]any{"case": canon, "outcome": labels} })
 	})
 }
+
+// ohpFor builds a valid first-hop one-hop path leaving the lab router through egress.
+func ohpFor(l *lab, egress uint16) *onehop.Path {
+	info := path.InfoField{ConsDir: true, SegID: 0x7777, Timestamp: uint32(time.Now().Unix() - 5)}
+	first := path.HopField{ConsEgress: egress, ExpTime: 63}
+	first.Mac = ref.HopMAC(l.key, info.SegID, info.Timestamp, 63, 0, egress)
+	return &onehop.Path{Info: info, FirstHop: first}
+}
